@@ -70,8 +70,10 @@ def ns_optim_fft(ns):
     :param ns:
     :return: nsoptim
     """
-    p2, p3 = np.meshgrid(2 ** np.arange(25), 3 ** np.arange(15))
+    # all 2^a 3^b below 2^62 (exact in double precision: 3^33 < 2^53), so that no candidate is missing for any practical ns
+    p2, p3 = np.meshgrid(2.0 ** np.arange(62), 3.0 ** np.arange(34))
     sz = np.unique((p2 * p3).flatten())
+    sz = sz[sz < 2 ** 62].astype(np.int64)
     return sz[np.searchsorted(sz, ns)]
 
 
